@@ -122,11 +122,43 @@ def main():
         ck.violation("correspondence Model/Payload.lean vs driver_actions broken on %d inputs" % len(disagreements),
                      {"correspondence": "payload/payloadhdr", "request": reqs[i][:2000], "model": outs[i][:400],
                       "implementation": reals[i][:400]}, found_input=False)
+    # every command-stream tensor of compiled generated networks: the payload bytes stored in the output file
+    # (plain flatbuffer walk) are parsed by the Lean Spec parser against the words the generator emitted
+    import fbwalk
+    import pipe_common
+    import pipeline
+    pouts = pipe_common.run_corpus(ck, 24 if not ck.thorough else 300, profiles=["mixed", "cpu", "weights", "elementwise"],
+                                   want=("out_model", "words"), corpus_first=False)
+    preqs, pown = [], []
+    acc_names = [a.value for a in accs]
+    for o in pouts:
+        if "harness_exception" in o:
+            raise common.InfraError(o["harness_exception"])
+        if o.get("status") != "ok" or not o.get("out_model") or not o.get("cmd_words"):
+            continue
+        model = fbwalk.parse(o["out_model"])
+        eops = pipeline.ethosu_ops(model)
+        for k, (si, op, mems, _rest) in enumerate(eops):
+            if k >= len(o["cmd_words"]):
+                break
+            blob = model["buffers"][mems[0]["buffer"]]
+            ws = o["cmd_words"][k]
+            if len(ws) > 60000:
+                continue
+            preqs.append("payloadcheck %d %d %s %s" % (acc_names.index(o["acc"]), len(ws), " ".join(map(str, ws)), " ".join(map(str, blob))))
+            pown.append((o, k, len(ws)))
+    pans = ck.model(preqs) if preqs else []
+    for (o, k, nw), a in zip(pown, pans):
+        ck.count("pipeline_payloads")
+        if not a.endswith("ok=1"):
+            ck.violation(f"Lean Spec rejects the command-stream tensor of a compiled network ({a}): network {o['idx']} {o['profile']} {o['opts']}",
+                         {"profile": o["profile"], "seed": o["seed"], "index": o["idx"], "opts": o["opts"], "stream": k, "spec_verdict": a})
     nontrivial = len({(ai, len(ws)) for ai, ws in cases if len(ws) > 0}) + len({c for c in hdr_cases if c[1] > 0})
     ck.sample({"request": reqs[5][:200], "model": outs[5][:120], "implementation": reals[5][:120]})
     ck.sample({"request": reqs[-1], "model": outs[-1], "implementation": reals[-1]})
     ck.finish({
-        "evaluations": len(reqs) + len(spec_reqs),
+        "evaluations": len(reqs) + len(spec_reqs) + len(preqs),
+        "pipeline_payloads_parsed": len(preqs),
         "distinct_nontrivial": nontrivial,
         "rule": "case = (accelerator, word list) through create_driver_payload or (words already present, length) through "
                 "emit_cmd_stream_header; non-trivial when the stream length > 0; distinct by (accelerator, length) / (have, length)",
